@@ -601,7 +601,7 @@ def run(ck: core.Check):
     tasks = ([(ck.seed, i, "oracle") for i in range(n_oracle)]
              + [(ck.seed, 10**6 + i, "collect") for i in range(n_collect)]
              + [(ck.seed, 2 * 10**6 + i, "sem") for i in range(n_sem)])
-    n_cf = len(CF.HAND_CASES) + pick(300, 4000)
+    n_cf = len(CF.HAND_CASES) + pick(300, 2500)
     tasks += [(ck.seed, 3 * 10**6 + i, "cf") for i in range(n_cf)]
     results = L.robust_map(case_worker, tasks, min(14, mp.cpu_count()), core.WORK)
     rng = ck.rng
